@@ -735,6 +735,16 @@ def run(ck):
     ck.case(dict(kind="deepcopy"), nontrivial=True)
     for cls, what in copy_check():
         ck.violation(cls, what, dict(kind="deepcopy"))
+    # "and the rest": the evaluators computed from the compiled ones, each one evaluated first after a modification
+    probe = build(new_def(dict(states=list(STATES), params=["p0", "p1"], base=[dict(op="mut", how="add_event_E", rate=dict(k="mass", p="p0", X="S", Y="I"),
+                                                                                       tr=[dict(tt="T", o="S", d="I", mag=1)])])), [0.5, 0.25])
+    for mut in COMP_MUTS:
+        for name in composites(probe):
+            inp = dict(kind="composite", how=mut["how"], name=name)
+            ck.case(inp, nontrivial=True)
+            bad = composite_case(mut["how"], name)
+            if bad:
+                ck.violation("stale-composite/%s/%s" % (mut["how"], name.split("_")[0]), bad, inp)
     ck.assumptions += [
         "a compiled evaluator is abstracted to the snapshot (definition, arity of self._sp, values) it was built from; "
         "sympy/lambdify is an oracle: same expressions and arguments => same numbers",
@@ -743,6 +753,75 @@ def run(ck):
         "a mutator that raises is assumed to leave the definition unchanged (not checked: see REPORT, partial param_list)",
         "the hessian evaluator is outside the add_func mechanism and raises on every model of this tree; not covered",
     ]
+
+
+# ------------------------------------------------------------------ "and the rest": evaluators built on top of the compiled ones
+COMP_X, COMP_T = np.array([2.0, 1.5, 0.75]), 0.5
+
+
+def composites(m):
+    """name -> thunk for the public evaluators that are computed from the compiled ones (time-first aliases, sensitivity and adjoint
+    right-hand sides and their Jacobians, interpolated adjoints, linear_ode)"""
+    nS, nP = m.num_state, m.num_param
+    x, t = COMP_X[:nS], COMP_T
+    S = np.linspace(0.1, 0.9, nS * nP)
+    lam = np.array([0.3, -0.2, 0.5][:nS])
+    z = np.concatenate([x, S])
+    ziv = np.concatenate([x, S, np.eye(nS).ravel()])
+    interp = [(lambda tt, v=v: v) for v in x]
+    return {
+        "ode_T": lambda: m.ode_T(t, x), "jacobian_T": lambda: m.jacobian_T(t, x), "grad_T": lambda: m.grad_T(t, x),
+        "sensitivity": lambda: m.sensitivity(S, t, x), "sensitivity_T": lambda: m.sensitivity_T(t, S, x),
+        "ode_and_sensitivity": lambda: m.ode_and_sensitivity(z, t), "ode_and_sensitivity_T": lambda: m.ode_and_sensitivity_T(t, z),
+        "ode_and_sensitivity_jacobian": lambda: m.ode_and_sensitivity_jacobian(z, t),
+        "ode_and_sensitivityIV": lambda: m.ode_and_sensitivityIV(ziv, t),
+        "ode_and_sensitivityIV_jacobian": lambda: m.ode_and_sensitivityIV_jacobian(ziv, t),
+        "adjoint": lambda: m.adjoint(lam, t, x), "adjoint_T": lambda: m.adjoint_T(t, lam, x),
+        "adjoint_interpolate": lambda: m.adjoint_interpolate(lam, t, interp),
+        "adjoint_interpolate_T": lambda: m.adjoint_interpolate_T(t, lam, interp),
+        "adjoint_jacobian": lambda: m.adjoint_jacobian(lam, t, x),
+        "adjoint_interpolate_jacobian": lambda: m.adjoint_interpolate_jacobian(lam, t, interp),
+        "linear_ode": lambda: float(bool(m.linear_ode())),
+    }
+
+
+COMP_MUTS = [dict(op="mut", how="add_event_T", rate=dict(k="mass", p="p1", X="R", Y="S"), tr=[dict(tt="T", o="R", d="S", mag=1)]),
+             dict(op="mut", how="add_ode", o="S", rate=dict(k="lin", p="p0", X="R", Y="S")),
+             dict(op="mut", how="param_list")]
+
+
+def composite_case(how, name):
+    """[evaluate everything; modify; evaluate `name` FIRST] vs a freshly constructed model.  -> None or what fails"""
+    h = dict(states=list(STATES), params=["p0", "p1"],
+             base=[dict(op="mut", how="add_event_E", rate=dict(k="mass", p="p0", X="S", Y="I"), tr=[dict(tt="T", o="S", d="I", mag=1)]),
+                   dict(op="mut", how="add_ode", o="R", rate=dict(k="lin", p="p1", X="I", Y="S"))])
+    mut = [q for q in COMP_MUTS if q["how"] == how][0]
+    live = build(new_def(h), [0.5, 0.25])
+    for f in composites(live).values():
+        try:
+            f()
+        except BaseException:      # noqa: B902
+            pass
+    if how == "param_list":
+        live.param_list = ["p2"]
+        live.parameters = [0.5, 0.25, 0.125]
+        fresh = build(new_def(dict(h, params=["p0", "p1", "p2"])), [0.5, 0.25, 0.125])
+    else:
+        do_mut(live, mut)
+        fresh = build(new_def(dict(h, base=h["base"] + [mut])), [0.5, 0.25])
+    try:
+        want = np.asarray(composites(fresh)[name](), dtype=float)
+    except BaseException:      # noqa: B902   (nothing to compare with)
+        return None
+    try:
+        got = np.asarray(composites(live)[name](), dtype=float)
+    except BaseException as e:      # noqa: B902
+        return "after [everything evaluated; %s%s]: %s raised %s: %s; a freshly constructed model returns %s" % (
+            how, "; parameters=list" if how == "param_list" else "", name, type(e).__name__, str(e)[:100], np.round(want, 6).ravel().tolist()[:8])
+    if got.shape != want.shape or not close(got, want):
+        return "after [everything evaluated; %s]: %s returned %s; a freshly constructed model returns %s" % (
+            how, name, np.round(got, 6).ravel().tolist()[:8], np.round(want, 6).ravel().tolist()[:8])
+    return None
 
 
 def copy_check():
@@ -781,6 +860,34 @@ def copy_check():
             if not close(got, want):
                 out.append(("stale-after-deepcopy", "%s: %s returned %s; a freshly constructed model with those values returns %s"
                             % (who, e, np.round(got, 6).tolist(), np.round(want, 6).tolist())))
+    # ... a copy that is evaluated first (with the values it was copied with) and given other values afterwards; then the ORIGINAL is
+    # given a third set of values: each of the two answers with its own
+    v_third = [0.875, 1.5]
+    cp3 = copy.deepcopy(live)
+    for e in EVALS11:
+        try:
+            getattr(cp3, e)(x, 0.0)
+        except BaseException:      # noqa: B902
+            pass
+    cp3.parameters = list(v_new)
+    live.parameters = list(v_third)
+    fresh_third = build(defn, v_third)
+    for who, mdl, ref in (("a deep copy that was evaluated and then given other parameter values", cp3, fresh_new),
+                          ("the original (given other values after its copy was)", live, fresh_third)):
+        for e in EVALS11:
+            try:
+                want = np.asarray(getattr(ref, e)(x, 0.0), dtype=float)
+            except BaseException:      # noqa: B902
+                continue
+            try:
+                got = np.asarray(getattr(mdl, e)(x, 0.0), dtype=float)
+            except BaseException as ex:      # noqa: B902
+                out.append(("error-after-deepcopy", "%s: %s raised %r" % (who, e, ex)))
+                continue
+            if not close(got, want):
+                out.append(("stale-after-deepcopy", "%s: %s returned %s; a freshly constructed model with those values returns %s"
+                            % (who, e, np.round(got, 6).tolist(), np.round(want, 6).tolist())))
+    live.parameters = list(v_old)
     # ... and a process added to the copy belongs to the copy: its evaluators follow, the original's do not
     extra = dict(op="mut", how="add_event_E", rate=dict(k="lin", p="p0", X="R", Y="S"), tr=[dict(tt="T", o="R", d="S", mag=1)])
     cp2 = copy.deepcopy(live)
@@ -818,6 +925,8 @@ def replay(ck, data):
     if h.get("kind") == "deepcopy":
         v = copy_check()
         return v[0][1] if v else None
+    if h.get("kind") == "composite":
+        return composite_case(h["how"], h["name"])
     _, canary, registered = facts_lists()
     f = first_failure(h, canary, registered)
     return f["what"] if f else None
